@@ -187,7 +187,12 @@ impl Property for C14 {
                 // nu = N - M - P: small values over-sampled
                 let mp = fam.spec.m() + fam.spec.p;
                 let nus = [1usize, 1, 2, 2, 3, 3, 4, 5, 6, 8, 10, 15, 25, 40, 60, 1100];
-                let n = mp + nus[pick(nsel, nus.len())];
+                // (1 of 32 instances: more than 4096 samples, not a multiple of 4096)
+                let mut nu = nus[pick(nsel, nus.len())];
+                if nu == 40 && nsel & 1 == 0 {
+                    nu = 4700;
+                }
+                let n = mp + nu;
                 let xmax = fam.x.last().copied().unwrap_or(1.0);
                 let quad = fam.family == 1;
                 fam.x = (0..n).map(|i| { let t = i as f64 / (n - 1) as f64; xmax * if quad { t * t } else { t } }).collect();
